@@ -156,6 +156,9 @@ class Field:
 
     def __call__(self) -> FeArray.FeArrayALike:
         """Returns the field as a finite element array."""
+        if self.__is_currently_evaluated:
+            # the values of the field at the integration points, as `grad` returns its gradient
+            return self.Interpolate(self._Get_dofsValues())
         node = self._Get_current_active_node()
         N_pg = self.groupElem.Get_N_pg(self.__matrixType)
         nPg, _, _ = N_pg.shape
@@ -240,7 +243,6 @@ class Field:
             # a function that raises must not leave the field in evaluation mode: the forms
             # integrated afterwards would differentiate these dof values
             self.__is_currently_evaluated = False
-
 
         if returnMeanValues:
             return values_e_pg.mean(1)
